@@ -767,7 +767,7 @@ func (p *Parser) parseInfixExp(left ast.Expression) ast.Expression {
 		return nil
 	}
 
-	exp.Right = p.parseExpression(SUM)
+	exp.Right = p.parseExpression(precedences[exp.Token.Type])
 
 	return exp
 }
